@@ -124,6 +124,52 @@ static void seed32(uint32_t seed, int outputs) {
 		h.jump(); q.jump(); for (int i = 0; i < 8; ++i) { ++g_checks; if (h.uint32() != q.starstar()) { V("xoshiro128**|jump-differs-from-reference", "seed=" + std::to_string(seed)); break; } } }
 }
 
+// ---------------------------------------------------------------- machines that own their generator
+// "A machine using the built-in generator makes the same random choices on every run": fresh instances agree, and a copy / a moved-to
+// instance carries on exactly where a fresh instance would be after the same number of steps - also once the source object is gone
+// (sources live in exact-size heap blocks that are poisoned and freed, so a generator left behind in the source is a sanitizer report
+// or a diverging sequence).
+namespace mach {
+template <typename TM>
+struct Fix {
+	struct A; struct B; struct C; struct D; struct E; struct F;
+	using FSM = typename TM::template RandomPeerRoot<A, B, typename TM::template Random<C, D, E, F>>;
+	struct A : FSM::State {}; struct B : FSM::State {};
+	struct C : FSM::State {}; struct D : FSM::State {}; struct E : FSM::State {}; struct F : FSM::State {};
+	using Instance = typename FSM::Instance;
+	static int step(Instance& m) {
+		m.randomize(hfsm2::StateID{0}); m.update();
+		int code = 0;
+		for (int s = 1; s < (int)FSM::STATE_COUNT; ++s) if (m.isActive((hfsm2::StateID)s)) code = code * 8 + s;
+		return code;
+	}
+};
+template <typename TM, typename... TArgs>
+static void run(const char* what, int rounds, TArgs&&... args) {
+	using X = Fix<TM>; using I = typename X::Instance;
+	for (int r = 0; r < rounds; ++r) {
+		const int n = 1 + (int)(rnd() % 40), m = 8 + (int)(rnd() % 40);
+		// reference: one fresh instance stepped n + m times
+		std::vector<int> refSeq; { I f{args...}; for (int i = 0; i < n + m; ++i) refSeq.push_back(X::step(f)); }
+		{ I f2{args...}; for (int i = 0; i < n + m; ++i) { ++g_checks; if (X::step(f2) != refSeq[(size_t)i]) { V("machine|fresh-instances-make-different-random-choices", what); return; } } }
+		for (int mode = 0; mode < 2; ++mode) {		// 0 copy, 1 move
+			void* mem = malloc(sizeof(I)); I* src = new (mem) I{args...};
+			bool ok = true;
+			for (int i = 0; i < n; ++i) if (X::step(*src) != refSeq[(size_t)i]) ok = false;
+			void* mem2 = malloc(sizeof(I));
+			I* dst = mode == 0 ? new (mem2) I{*src} : new (mem2) I{static_cast<I&&>(*src)};
+			if (mode == 0 && (r & 1)) { for (int i = 0; i < m; ++i) if (X::step(*src) != refSeq[(size_t)(n + i)]) { V("machine|original-disturbed-by-its-copy", what); ok = false; break; } }
+			src->~I(); memset(mem, 0xDD, sizeof(I)); free(mem);
+			for (int i = 0; i < m && ok; ++i) { ++g_checks; if (X::step(*dst) != refSeq[(size_t)(n + i)]) { V(mode == 0 ? "machine|copy-does-not-continue-the-random-sequence" : "machine|moved-to-instance-does-not-continue-the-random-sequence", std::string(what) + " after " + std::to_string(n) + "+" + std::to_string(i) + " steps"); ok = false; } }
+			// a copy of the copy / moved-to instance starts from its generator, not from a stale one
+			if (ok) { I third{*dst}; I fresh{args...}; for (int i = 0; i < n + m; ++i) X::step(fresh); for (int i = 0; i < 8; ++i) { ++g_checks; if (X::step(third) != X::step(fresh)) { V("machine|copy-of-a-copied-or-moved-instance-diverges", what); break; } } }
+			dst->~I(); memset(mem2, 0xDD, sizeof(I)); free(mem2);
+			++g_distinct;
+		}
+	}
+}
+}
+
 int main(int argc, char** argv) {
 	const bool thorough = argc > 1 && !strcmp(argv[1], "thorough");
 	rs ^= (argc > 2 ? strtoull(argv[2], nullptr, 10) : 0) * 0xD1342543DE82EF95ull + 1;
@@ -153,6 +199,9 @@ int main(int argc, char** argv) {
 	// RNGT<float> as used by a machine: same seed, same stream
 	{ hfsm2::RNGT<float> a{0}, b{0}; hfsm2::RNGT<float> c{77}, d{77};
 	  for (int i = 0; i < 1000; ++i) { const float x = a.next(); ++g_checks; if (x != b.next()) { V("determinism|RNGT-equal-seeds-diverge", ""); break; } if (!(x >= 0.0f && x < 1.0f)) V("range|RNGT-outside-[0,1)", ""); if (c.next() != d.next()) { V("determinism|RNGT-equal-seeds-diverge", ""); break; } } }
+	{ static int ctxValue = 5; int* ctxPtr = &ctxValue;
+	  mach::run<hfsm2::Machine>("no context", thorough ? 400 : 60);
+	  mach::run<hfsm2::MachineT<hfsm2::Config::ContextT<int*>>>("pointer context", thorough ? 400 : 60, ctxPtr); }
 	printf("X float-conversions-equal-to-the-exponent-trick-formula %llu other %llu (reported, not judged)\n", g_convSame, g_convOther);
 	printf("Z %llu %llu %d %ld\n", g_checks, g_distinct, g_viol, g_breaks);
 	return 0;
